@@ -15,17 +15,17 @@ import (
 // generic search
 
 type searcher struct {
-	c       *harness.C
-	cfg     rcfg
-	init    []Event
-	succ    func(w *rw, hist []Event, byzUsed int) []Event
-	onTrans func(before []HO, w *rw, hist []Event, e Event, panicText string)
-	onState func(w *rw, hist []Event, terminal bool)
+	c         *harness.C
+	cfg       rcfg
+	init      []Event
+	succ      func(w *rw, hist []Event, byzUsed int) []Event
+	onTrans   func(before []HO, w *rw, hist []Event, e Event, panicText string)
+	onState   func(w *rw, hist []Event, terminal bool)
 	maxStates int
-	visited map[string]struct{}
-	trans   int
-	capped  bool
-	prefix  string // state-key prefix (scenario id)
+	visited   map[string]struct{}
+	trans     int
+	capped    bool
+	prefix    string // state-key prefix (scenario id)
 }
 
 func byzCount(hist []Event) int {
@@ -124,8 +124,8 @@ func histStrings(h []Event) []string {
 }
 
 type replayHist struct {
-	Scenario string  `json:"scenario"`
-	Hist     []Event `json:"hist"`
+	Scenario string   `json:"scenario"`
+	Hist     []Event  `json:"hist"`
 	Trace    []string `json:"trace"`
 }
 
